@@ -613,6 +613,10 @@ def ravel_dimensions(
 
     if linear_dimension is None:
         linear_dimension = find_unused_dimension(data_array, 'index')
+    elif linear_dimension in existing_dims:
+        raise ValueError(
+            f"Can not name the linear dimension {linear_dimension!r}, "
+            "the data array already has a dimension with that name")
     new_dims = existing_dims + (linear_dimension,)
 
     coords = {
